@@ -12,6 +12,7 @@ HAND_SOURCES = [
     '@ GET /a {\n  $ f = async {\n    $ i = 0\n    while i < 3 {\n      i = i + 1\n    }\n    > i\n  }\n  > [await f, [1, [2, {k: null}]]]\n}\n',
     '@ GET /g {\n  + auth(jwt)\n  + ratelimit(10/min)\n  % db: Database\n  ? ok :: 404 "nope"\n  for k, v in {a: 1} {\n    if v == 1 {\n      break\n    } else {\n      continue\n    }\n  }\n  switch 1 {\n    case 1 {\n      > 1 :: 201\n    }\n    default {\n      > 2\n    }\n  }\n}\n',
     '@ GET /crlf {\r\n  > 1\r\n}\r\n',
+    ': P {\n  age: int @min(0) @max(150)\n  name: str @minLen(2)\n}\n\n@ POST /p -> P {\n  < input: P\n  > input\n}\n',
 ]
 
 NEST = {
@@ -229,7 +230,7 @@ def source(ck, tier, seed):
     cases, _ = langrun.evaluate(progs)
     bases = [s.encode() for s in HAND_SOURCES] + [("@ POST /run {\n" + cases[p["id"]]["src"] + "}\n").encode() for p in progs]
     if quick:
-        bases = bases[:8] + bases[-2:]
+        bases = bases[:len(HAND_SOURCES)] + bases[-2:]
     work = vf.scratch("verif-c10-")
     lens = os.path.join(work, "lens.ndjson")
     vf.write_ndjson(lens, [{"id": i, "len": len(b)} for i, b in enumerate(bases)])
@@ -299,7 +300,7 @@ def run(ck, tier, seed):
     ck.assumptions += [
         "bytecode: Bytecode.tla is the reference for the container as the compiler writes it (docs/BINARY_FORMAT.md describes a different, unimplemented layout); it decodes every file the real compiler emitted for the corpus and every catalogued malformation of it (every truncation; every count, length, constant index, jump target and async length set to 0, +-1, 2^20, 2^31-1, 2^31, 2^32-1; type tags, opcodes, magic, version replaced; bytes appended)",
         "the decompiler must reproduce the reference's constants and instruction boundaries on well-formed files; the VM (step limit 200000) must not return a result for a file the reference classifies as malformed; decompiler and VM must answer every file without panic within 3 s and 6 MB + 3000 bytes per input byte of allocation",
-        "source: the catalogue of SourceMut.tla (every truncation, 11 foreign bytes inserted at every position, 4 replacements and a doubling at every position of each base program; 11 nesting constructs at depths 10..10^6) is applied to parser-accepted programs; both lexers and the parser must end with a tree or a diagnostic within the same bounds. The specification does not decide which mutated sources are valid",
+        "source: the catalogue of SourceMut.tla (every truncation, 11 foreign bytes inserted at every position, 5 replacements and a doubling at every position of each base program; 11 nesting constructs at depths 10..10^6) is applied to parser-accepted programs; both lexers and the parser must end with a tree or a diagnostic within the same bounds. The specification does not decide which mutated sources are valid",
     ]
     bytecode(ck, tier, seed)
     limit_sweep(ck, tier, seed)
